@@ -144,10 +144,6 @@ def position_tags(t: list, position: str) -> list[str]:
         tags.append("attr:final_unanalysed_args")
     if position in {"class_attr", "inst_attr"} and ref.tr(inner)[0] == "C":
         tags.append("attr:callable")
-    while t[0] == "union" and len(t[1]) == 1:
-        t = t[1][0]
-    if position == "result" and t[0] == "tuple" and any(ref.tr(x) == ref.N for x in t[1]):
-        tags.append("ret:tuple_with_none_element")
     return tags
 
 
@@ -221,6 +217,10 @@ def judge(case: dict) -> dict:
 
     def cmp_result(i: int, t: list, got: Any, found: bool) -> None:
         exp = expected_results(t)
+        if found and exp == [ref.N] and got == []:
+            # a 1-tuple whose only element is None: indistinguishable from '-> None' once it is a single None result
+            res["evals"] += 1
+            return
         if found and t[0] != "none" and exp == [] and got == [ref.N]:
             # an all-None union ('None | None'): the statement allows "one result carrying the translated type"
             res["evals"] += 1
